@@ -869,6 +869,13 @@ int main(int argc, char **argv)
 	    { "S [0][0][0] =v0", "S [0][0][1].k0 =v1", "U [1]{}", "U [2][]",
 	      "S [1].k0.k1.k2 =v5", "C", "B [0][0]", "S [0] #", "S . =v0",
 	      "S k0 =v1", NULL },
+	    /* several insert/append subscripts on one path, on lists that
+	     * already hold elements: a failure after the first insertion
+	     * must undo exactly that one */
+	    { "S k0[0].k1 =v0", "S k0[+][+].k1 =v1", "S k0[0+][+] =v2",
+	      "S k0[+][0+].k2 =v0", "U k0[+][+]{}", "U k0[1+][0+][]",
+	      "S k0[0][+][+] =v3", "S [+][+] =v0", "S [0+][+].k0 =v1",
+	      "U [+][+][+]", "C", NULL },
 	};
 	int nscripts = (int)(sizeof(scripts) / sizeof(scripts[0]));
 	int script = atoi(argv[2]);
